@@ -80,6 +80,11 @@ pub fn is_continuous_ents(msg: &Message, ents: &[Entry]) -> bool {
         let expected_next_idx = msg.entries.last().unwrap().index + 1;
         return expected_next_idx == ents.first().unwrap().index;
     }
+    if msg.entries.is_empty() && !ents.is_empty() {
+        // An empty append is anchored at `msg.index`, entries can only be batched into
+        // it if they directly follow that index.
+        return msg.index + 1 == ents.first().unwrap().index;
+    }
     true
 }
 
